@@ -24,6 +24,7 @@ RULE = ('Same generated merges as C11 (1-4 probes, channel counts 2-7 and templa
         'channel block, template_feature_ind by the template offset; params keep the rate and sum '
         'n_channels_dat. non-trivial = distinct merges with >= 3 probes of pairwise different channel and '
         'template counts, or >= 2 probes with unsigned index tables.')
+RULE += ' Added classes (shared workload): Fortran-ordered templates.npy / matrices in any probe incl. the first; NaN / inf samples in the last template of a probe (must not leak into other blocks); fractional sampling rates; folder names as in C11.'
 EXHAUSTIVE = {'quick': False, 'thorough': False}
 FLOORS = {'quick': {'evaluations': 950, 'distinct_nontrivial': 200},
           'thorough': {'evaluations': 15000, 'distinct_nontrivial': 3000}}
@@ -121,7 +122,7 @@ def oracle_c12(ctx, desc, f0, specs, out, m, info):
                 row = toff[p] + t
                 E = np.zeros((nsw, NC), dtype=TT.dtype)
                 E[:, coff[p]:coff[p + 1]] = s.templates[t]
-                if row >= NT or not np.array_equal(TT[row], E):
+                if row >= NT or same(TT[row], E, dtype=False):
                     where = 'row %d' % row
                     V('template_blocks', 'template %d of probe %d (%s of templates.npy, the id its spikes carry) is not '
                       'the input waveform on channel block [%d, %d) with zeros elsewhere' % (t, p, where, coff[p], coff[p + 1]),
